@@ -53,11 +53,15 @@ package keeper
 //@   ensures #c13-nonneg: netfee(k, ctx, appID, assetID) >= 0
 //@   ensures #c13-frame: forall a, b :: (a != appID || b != assetID) ==> k.GetNetFeeCollectedData(ctx, a, b) == old(k.GetNetFeeCollectedData(ctx, a, b))
 
+// trk: the carried (sub-unit) savings of a locker; accr: the savings accrued since the locker's accrual clock (its own clock,
+// or the collector's when the locker has none) - the float64 kernel is abstracted as a deterministic function.
+//@ pred trk(k, ctx, app, id): ite(K("rewards").GetLockerRewardTracker(ctx, id, app).1, K("rewards").GetLockerRewardTracker(ctx, id, app).0.RewardsAccumulated, 0)
+//@ pred accr(k, ctx, app, id, lsr, cbt): K("rewards").CalculationOfRewards(ctx, K("locker").GetLocker(ctx, id).0.NetBalance, lsr, ite(K("locker").GetLocker(ctx, id).0.BlockHeight == 0, cbt, div(K("locker").GetLocker(ctx, id).0.BlockTime, pow10(9)))).0
 // Paying pending locker savings of an (app, asset) out of the collector (C13): for every locker, coins leave collector
 // custody only together with an equal decrease of the recorded net fees - a locker whose reward exceeds the recorded fees
 // is skipped without moving anything - so (custody - recorded net fees) of the asset never shrinks.
 //@ func (k Keeper) LockerIterateRewards
-//@   property C13
+//@   property C13, C18
 //@   let cm = modaddr("collectorV1")
 //@   let d = k.asset.GetAsset(ctx, assetID).0.Denom
 //@   requires #nonneg-book: netfee(k, ctx, appID, assetID) >= 0
@@ -66,3 +70,18 @@ package keeper
 //@   loop 0 invariant #lockers-of-asset: forall id :: K("locker").GetLocker(ctx, id).0.AssetDepositId == assetID
 //@   loop 0 invariant #asset-fixed: k.asset.GetAsset(ctx, assetID).0.Denom == d
 //@   ensures #c13-custody-moves-with-book: bal(cm, d) - netfee(k, ctx, appID, assetID) >= old(bal(cm, d) - netfee(k, ctx, appID, assetID))
+
+//@   let ids = K("locker").GetLockerLookupTable(ctx, appID, assetID).0.LockerIds
+//@   requires #listed-lockers-exist: forall j :: 0 <= j && j < len(ids) ==> K("locker").GetLocker(ctx, ids[j]).1 && K("locker").GetLocker(ctx, ids[j]).0.LockerId == ids[j]
+//@   requires #ids-distinct: forall i, j :: 0 <= i && i < j && j < len(ids) ==> ids[i] != ids[j]
+//@   requires #trackers-keyed: forall id :: K("rewards").GetLockerRewardTracker(ctx, id, appID).1 ==> K("rewards").GetLockerRewardTracker(ctx, id, appID).0.LockerId == id && K("rewards").GetLockerRewardTracker(ctx, id, appID).0.AppMappingId == appID
+//@   loop 0 invariant #untouched-ahead: forall j :: idx0 <= j && j < len(ids) ==> K("locker").GetLocker(ctx, ids[j]) == old(K("locker").GetLocker(ctx, ids[j])) && K("rewards").GetLockerRewardTracker(ctx, ids[j], appID) == old(K("rewards").GetLockerRewardTracker(ctx, ids[j], appID))
+//@   loop 0 invariant #trackers-keyed: forall id :: K("rewards").GetLockerRewardTracker(ctx, id, appID).1 ==> K("rewards").GetLockerRewardTracker(ctx, id, appID).0.LockerId == id && K("rewards").GetLockerRewardTracker(ctx, id, appID).0.AppMappingId == appID
+//@   loop 0 invariant [C18] #c18-clock: forall j :: 0 <= j && j < idx0 ==> \
+//@       (K("rewards").GetLockerRewardTracker(ctx, ids[j], appID).1 && old(accr(k, ctx, appID, ids[j], collectorLsr, collectorBt)) > 0 && \
+//@        K("rewards").GetLockerRewardTracker(ctx, ids[j], appID).0.RewardsAccumulated == old(trk(k, ctx, appID, ids[j])) + old(accr(k, ctx, appID, ids[j], collectorLsr, collectorBt)) \
+//@        ==> K("locker").GetLocker(ctx, ids[j]).0.BlockTime == blocktime())
+//@   ensures [C18] #c18-carried-accrual-advances-the-clock: forall j :: 0 <= j && j < len(ids) ==> \
+//@       (K("rewards").GetLockerRewardTracker(ctx, ids[j], appID).1 && old(accr(k, ctx, appID, ids[j], collectorLsr, collectorBt)) > 0 && \
+//@        K("rewards").GetLockerRewardTracker(ctx, ids[j], appID).0.RewardsAccumulated == old(trk(k, ctx, appID, ids[j])) + old(accr(k, ctx, appID, ids[j], collectorLsr, collectorBt)) \
+//@        ==> K("locker").GetLocker(ctx, ids[j]).0.BlockTime == blocktime())
